@@ -30,6 +30,7 @@ def import_mokapot_patched():
     import mokapot  # noqa
     assert os.path.abspath(mokapot.__file__).startswith(os.path.abspath(REPO)), mokapot.__file__
     _done[0] = True
+    snapshot_state(*[m for n, m in list(sys.modules.items()) if n.startswith("mokapot") and m is not None])
 
 
 def import_mokapot_real():
@@ -77,3 +78,41 @@ _MISSING = object()
 def rebind(m, **kw):
     for k, v in kw.items():
         m.__dict__[k] = v
+
+
+# ---------------------------------------------------------------------------
+# Module-level mutable state of the code under test must not leak from one explored path into
+# the next (every path stands for a fresh interpreter unless a harness itself makes several calls).
+_STATE = {}
+
+
+def snapshot_state(*modules):
+    import copy
+    for m in modules:
+        snap = {}
+        for k, v in list(m.__dict__.items()):
+            if k.startswith("__") or isinstance(v, type(sys)):
+                continue
+            if isinstance(v, (dict, list, set)):
+                try:
+                    snap[k] = copy.deepcopy(v)
+                except Exception:
+                    pass
+        _STATE[m.__name__] = (m, snap)
+
+
+def restore_state():
+    import copy
+    for m, snap in _STATE.values():
+        for k, v in snap.items():
+            cur = m.__dict__.get(k)
+            if isinstance(cur, dict) and isinstance(v, dict):
+                cur.clear()
+                cur.update(copy.deepcopy(v))
+            elif isinstance(cur, list) and isinstance(v, list):
+                cur[:] = copy.deepcopy(v)
+            elif isinstance(cur, set) and isinstance(v, set):
+                cur.clear()
+                cur.update(copy.deepcopy(v))
+            else:
+                m.__dict__[k] = copy.deepcopy(v)
